@@ -3,6 +3,7 @@ package machine
 import (
 	"encoding/binary"
 	"hash/fnv"
+	"verifmc/explore"
 )
 
 // Digest hashes what a guest (and a user) can observe of this machine: CPU registers,
@@ -68,6 +69,9 @@ func (m *M) DigestMode(mode int) uint64 {
 		rd(0xc000, 0xdfff)
 		rd(0xfe00, 0xffff)
 		h.Write(m.P.Frame().Pix)
+		// the object memory with its corruption flags, read reflectively: bus reads of FE00-FE9F are skipped above
+		// while the LCD is on (a read in mode 2 is itself an event for the OAM-bug emulation)
+		h.Write([]byte(explore.DeepKey(m.OAM, 1<<12)))
 	} else if full {
 		rd(0x0000, 0x9fff)
 		rd(0xa000, 0xbfff)
